@@ -286,7 +286,7 @@ def header_reader(repo: Repo, chk: Check) -> None:
         if len(ints) < 2:
             continue
         lenval = Lin.atom(("read", ints[1].rid))
-        rej = any(c.info.get("cmp") is not None and c.info["cmp"][0] in ("eq", "ne") and {repr(c.info["cmp"][1]), repr(c.info["cmp"][2])} == {repr(lenval), "128"} and pol is (c.info["cmp"][0] == "ne") for c, pol in _implied(p.conds))
+        rej = not _feasible_with(p.conds, ("read", ints[1].rid), 128)
         chk.ob("O2", Site.of(f, construct="indefinite length rejected"), rej, "a returning path always has length octet != 0x80" if rej else "the indefinite length form (0x80) is not rejected on a returning path")
         res = p.result
         tag = res.fields.get("tag") if hasattr(res, "fields") else None
@@ -299,6 +299,28 @@ def header_reader(repo: Repo, chk: Check) -> None:
         return  # no accumulation loop: byte order and signedness were decided on the single read above
     okacc, why = big_endian_accumulation(repo, f)
     chk.ob("O2", Site.of(f, construct="big-endian length accumulation"), okacc, why)
+
+
+def _feasible_with(conds: t.Any, atom: t.Any, value: int) -> bool:
+    """Can the path be taken when `atom` has `value`?  Every condition of the path that only speaks about that atom is
+    evaluated (comparisons, non-zero tests of bit expressions); one that comes out against its polarity excludes it."""
+    from sa.sym import eval_lin
+
+    env = {atom: value}
+    for c, pol in _implied(conds):
+        info = getattr(c, "info", {})
+        val: t.Optional[bool] = None
+        if "cmp" in info:
+            op, x, y = info["cmp"]
+            a_, b_ = eval_lin(x, env), eval_lin(y, env)
+            if a_ is not None and b_ is not None:
+                val = {"lt": a_ < b_, "le": a_ <= b_, "gt": a_ > b_, "ge": a_ >= b_, "eq": a_ == b_, "ne": a_ != b_}[op]
+        elif isinstance(info.get("nonzero"), Lin):
+            a_ = eval_lin(info["nonzero"], env)
+            val = None if a_ is None else a_ != 0
+        if val is not None and val != pol:
+            return False
+    return True
 
 
 def _implies_ge0(conds: t.Any, goal: Lin) -> bool:
